@@ -72,6 +72,20 @@ class C19(Check):
         return cases()
 
     def fixed_cases(self, tier):
+        # two types share their unqualified name (null namespace / a namespace); the namespaced one is referred to only by
+        # its relative spelling inside a dependency, after the null-namespace one has already been loaded
+        for kind, a, b, va, vb in (("enum", {"symbols": ["M", "FT"]}, {"symbols": ["DEG", "RAD", "M"]}, "M", "M"), ("fixed", {"size": 1}, {"size": 2}, b"a", b"bc")):
+            yield {
+                "top": "Reading",
+                "files": {
+                    "Reading": {"type": "record", "name": "Reading", "fields": [{"name": "unit", "type": "Unit"}, {"name": "measure", "type": "geo.Measure"}]},
+                    "Unit": dict({"type": kind, "name": "Unit"}, **a),
+                    "geo.Measure": {"type": "record", "name": "Measure", "namespace": "geo", "fields": [{"name": "value", "type": "double"}, {"name": "unit", "type": "Unit"}, {"name": "shown_in", "type": ["null", "Unit"]}]},
+                    "geo.Unit": dict({"type": kind, "name": "Unit", "namespace": "geo"}, **b),
+                },
+                "data": [{"unit": va, "measure": {"value": 1.5, "unit": vb, "shown_in": vb}}],
+                "missing": "geo.Unit",
+            }
         yield {
             "top": "shop.Order",
             "files": {
